@@ -95,7 +95,16 @@ func c11In(xs []string, x string) bool {
 	return false
 }
 
-func c11Del(rng *rand.Rand, oneIn int) bool { return rng.Intn(oneIn) == 0 }
+// soft-deleted?  c11DelHeavy (set per world by the suite loop): about half of all rows of every table are soft-deleted, so
+// that Unscoped loads meet soft-deleted rows at every level (parent, joined relation, preloaded child, grandchild)
+var c11DelHeavy bool
+
+func c11Del(rng *rand.Rand, oneIn int) bool {
+	if c11DelHeavy {
+		return rng.Intn(5) < 2
+	}
+	return rng.Intn(oneIn) == 0
+}
 
 func init() {
 	// ---------------- family S ----------------
